@@ -656,3 +656,33 @@ Proof.
   constructor; [split; assumption|].
   destruct (fst (host h v)) eqn:F; try (apply IH; assumption). congruence.
 Qed.
+
+(* ---- generators ---------------------------------------------------------------------------- *)
+
+(* an error (of any kind, a timeout included) that escapes a generator's vm leaves its call stack EMPTY: none of its
+   frames is an execution barrier, so the unwinding pops them all; every later resume finds it finished *)
+Lemma escape_empties_barrier_free_stack : forall c, flat c = true -> forall v, J v -> Forall nb (stack v) ->
+  forall e v', exec c v = (OEscape e, v') -> stack v' = [].
+Proof.
+  intros c Hf v HJ Hnb e v' He.
+  pose proof (exec_spec c Hf v HJ _ _ He) as (k & K1 & _ & _ & K4).
+  destruct K4 as [K4|(f & r & F1 & F2)]; [exact K4|].
+  exfalso. rewrite F1 in K1.
+  assert (Hs : Forall nb (skipn k (stack v))).
+  { rewrite <- (firstn_skipn k (stack v)) in Hnb. apply Forall_app in Hnb. tauto. }
+  destruct (skipn k (stack v)) as [|g gr]; simpl in K1; [exact K1|].
+  destruct K1 as ((_ & _ & Hb) & _). inversion Hs; subst. unfold nb in *. congruence.
+Qed.
+
+Theorem failed_generator_is_finished_thm : forall c required, flat c = true -> forall e gv',
+  exec c (generator_vm required) = (OEscape e, gv') ->
+  stack gv' = [] /\ forall c', continue_running c' gv' = (HOk, gv').
+Proof.
+  intros c required Hf e gv' He.
+  assert (HJ : J (generator_vm required)).
+  { unfold generator_vm, new_frame, push_frame, fresh; simpl. eexists; eexists; simpl. split; [reflexivity|simpl; auto]. }
+  assert (Hnb : Forall nb (stack (generator_vm required))).
+  { unfold generator_vm, new_frame, push_frame, fresh; simpl. constructor; [reflexivity|constructor]. }
+  pose proof (escape_empties_barrier_free_stack c Hf _ HJ Hnb e gv' He) as S.
+  split; [exact S|]. intros c'. unfold continue_running. rewrite S. reflexivity.
+Qed.
